@@ -40,9 +40,10 @@ var (
 
 // backend is the scripted registry: the step named by fail returns err, every other step succeeds.
 type backend struct {
-	fail string
-	err  error
-	hits atomic.Int64
+	fail       string
+	err        error
+	hits       atomic.Int64
+	sourCloses bool // writers whose Write failed fail to close as well (with another error)
 }
 
 func (b *backend) at(step string) error {
@@ -66,18 +67,26 @@ func okBlob(mt string, data []byte) ociregistry.BlobReader {
 }
 
 type fakeWriter struct {
-	b    *backend
-	size int64
+	b      *backend
+	size   int64
+	failed bool
 }
 
 func (w *fakeWriter) Write(p []byte) (int, error) {
 	if err := w.b.at("Write"); err != nil {
+		w.failed = true
 		return 0, err
 	}
 	w.size += int64(len(p))
 	return len(p), nil
 }
-func (w *fakeWriter) Close() error   { return w.b.at("Close") }
+func (w *fakeWriter) Close() error {
+	if w.failed && w.b.sourCloses {
+		// a writer whose Write failed does not close cleanly either: that is a consequence, not the news
+		return ociregistry.NewError("cannot close: the upload is in a failed state", ociregistry.ErrBlobUploadInvalid.Code(), nil)
+	}
+	return w.b.at("Close")
+}
 func (w *fakeWriter) Size() int64    { return w.size }
 func (w *fakeWriter) ChunkSize() int { return 0 }
 func (w *fakeWriter) ID() string     { return uploadID0 }
@@ -207,7 +216,7 @@ var headNoCType atomic.Int64
 type inproc struct {
 	h        http.Handler
 	bareHead bool // failed HEAD responses carry no Content-Type
-	n atomic.Int64
+	n        atomic.Int64
 }
 
 func (t *inproc) RoundTrip(req *http.Request) (*http.Response, error) {
